@@ -91,6 +91,12 @@ func verifC10Router(globals int) (*Router, *[]string) {
 	r.GET("/s", tag("s"), pass)
 	r.GET("/d/{id}", tag("d"), pass, pass)
 	r.POST("/p", tag("p"))
+	// a handler that writes through c.Resp and, like most code, does not look at the error
+	r.GET("/w", func(c *Context) {
+		_, _ = c.Resp.Write([]byte("w1"))
+		_, _ = c.Resp.Write([]byte("w2"))
+		log = append(log, "w")
+	})
 	// a connection upgrade: the handler takes the connection over
 	r.GET("/h", func(c *Context) {
 		if hj, ok := c.Resp.(http.Hijacker); ok {
@@ -176,7 +182,7 @@ func verifBoolStr(b bool) string {
 
 func verifHarness_C10_history() {
 	globals := verifChoice("globals", 2)
-	reqs := []verifC03Req{{"GET", "/s"}, {"GET", "/d/7"}, {"GET", "/nowhere"}, {"POST", "/s"}, {"POST", "/p"}, {"GET", "/q"}, {"GET", "/c"}, {"GET", "/t"}, {"GET", "/tbad"}, {"GET", "/f"}, {"GET", "/h"}}
+	reqs := []verifC03Req{{"GET", "/s"}, {"GET", "/d/7"}, {"GET", "/nowhere"}, {"POST", "/s"}, {"POST", "/p"}, {"GET", "/q"}, {"GET", "/c"}, {"GET", "/t"}, {"GET", "/tbad"}, {"GET", "/f"}, {"GET", "/h"}, {"GET", "/w"}, {"GET", "/w!"}}
 	r, log := verifC10Router(globals)
 	verifC10Kept, verifC10KeptData = nil, nil
 	K := verifParam("K")
@@ -192,13 +198,22 @@ func verifHarness_C10_history() {
 				d["job"] = "done"
 			}
 		}
+		// the client of this request may be gone: its writer refuses every write (a handler that
+		// insists on writing then panics, which the caller sees); later requests are not affected
+		dead := q.path == "/w!"
+		if dead {
+			q.path = "/w"
+		}
 		rec := verifNewWriter()
-		r.ServeHTTP(rec, verifRequestQ(q.method, q.path, "page=1&size=10"))
+		rec.refuse = dead
+		kr := verifCatch(func() { r.ServeHTTP(rec, verifRequestQ(q.method, q.path, "page=1&size=10")) })
 		got := *log
 		keptN := len(verifC10Kept)
 		fresh, flog := verifC10Router(globals)
 		frec := verifNewWriter()
-		fresh.ServeHTTP(frec, verifRequestQ(q.method, q.path, "page=1&size=10"))
+		frec.refuse = dead
+		kf := verifCatch(func() { fresh.ServeHTTP(frec, verifRequestQ(q.method, q.path, "page=1&size=10")) })
+		verifAssert(kr == kf, "a request ends (returns or panics) as it does on a fresh router")
 		verifC10Kept, verifC10KeptData = verifC10Kept[:keptN], verifC10KeptData[:keptN]
 		same := len(got) == len(*flog) && rec.whStatus == frec.whStatus && string(rec.body) == string(frec.body) && rec.flushes == frec.flushes && rec.whCalls == frec.whCalls
 		if same {
